@@ -374,3 +374,89 @@ def _inside(arm, node):
             if x is node:
                 return True
     return False
+
+
+# ------------------------------------------------------------------ order of child lists
+
+REORDER_METHODS = {"sort", "sort_by", "sort_by_key", "sort_unstable", "sort_unstable_by", "sort_unstable_by_key",
+                   "sort_by_cached_key", "dedup", "dedup_by", "dedup_by_key", "reverse", "rev", "swap", "swap_remove",
+                   "rotate_left", "rotate_right", "select_nth_unstable", "sorted", "into_sorted_vec"}
+UNORDERED_TYPES = ("alloc::collections::btree::", "std::collections::hash::", "alloc::collections::binary_heap::",
+                   "hashbrown::")
+
+
+def order_preserved(F, rep, rule, prefixes, node_prefixes, floor):
+    """The tree a pass hands on lists its children in the order the source wrote them: evaluation order (arguments,
+    elements, blob fields, statements), parameter positions and type-variable positions are all *positions in a Vec*.
+    For every node the functions under `prefixes` construct (types under `node_prefixes`), the backward slice of each
+    Vec-valued field - the expression, the initialisers of the locals it names, and the statements that mutate those
+    locals - passes through no sorted or hashed collection and no reordering operation."""
+    from hir import nodes, fn_body, peel, line_of, last, callee, pat_bindings
+    n = 0
+    for fn in [f for pre in prefixes for f in F.fns_in(pre)]:
+        body = fn_body(fn)
+        lets = {}
+        for st in nodes(body, "Let"):
+            if st.get("init") is not None:
+                for b in pat_bindings(st["pat"]):
+                    lets.setdefault(b["hid"], []).append(st["init"])
+        mut = {}
+        for c in nodes(body, "MethodCall"):
+            r = peel(c["recv"])
+            if isinstance(r, dict) and r.get("k") == "Path" and r.get("res") == "Local":
+                mut.setdefault(r["hid"], []).append(c)
+        seq = {}
+        for node in nodes(body):
+            k = node.get("k")
+            if k == "Struct":
+                path = node.get("path") or ""
+                fields = [(f["name"], f["e"]) for f in node["fields"]]
+            elif k == "Call":
+                path = callee(node) or ""
+                fields = [(str(i), a) for i, a in enumerate(node["args"])]
+            else:
+                continue
+            if not path.startswith(tuple(node_prefixes)) or not (node.get("ty") or "").startswith(tuple(node_prefixes)):
+                continue
+            for fname, e in fields:
+                if not (isinstance(e, dict) and (e.get("ty") or "").lstrip("&").strip().startswith("alloc::vec::Vec<")):
+                    continue
+                n += 1
+                bad = _order_slice(e, lets, mut)
+                ctor = last(path, 2)
+                seq[(ctor, fname)] = seq.get((ctor, fname), 0) + 1
+                key = "%s|%s.%s#%d" % (last(fn["_path"], 2), ctor, fname, seq[(ctor, fname)])
+                rep.ob(rule, key, not bad,
+                       ("`%s` of %s keeps the order its elements were written in" % (fname, ctor)) if not bad else
+                       ("`%s` of %s built in %s passes through %s: its elements no longer stand in the order the source wrote "
+                        "them (evaluation order of the children / the position a parameter or type variable is bound by)"
+                        % (fname, ctor, last(fn["_path"], 2), "; ".join(sorted(set(bad))))), line_of(node))
+    rep.floor(rule, "list-valued fields of constructed nodes", n, floor)
+
+
+def _order_slice(e, lets, mut):
+    from hir import nodes, peel, line_of
+    bad = []
+    seen = set()
+    seen_nodes = set()
+    work = [e]
+    while work:
+        x = work.pop()
+        if id(x) in seen_nodes:
+            continue
+        seen_nodes.add(id(x))
+        for nd in nodes(x):
+            t = (nd.get("ty") or "").lstrip("&").replace("mut ", "").strip()
+            if nd.get("k") in ("Path", "MethodCall", "Call") and t.startswith(UNORDERED_TYPES):
+                bad.append("a %s (line %s)" % (t.split("<")[0].split("::")[-1], line_of(nd).split(":")[-2] if line_of(nd) else "?"))
+            if nd.get("k") == "MethodCall" and nd["m"] in REORDER_METHODS:
+                bad.append("`.%s()` (line %s)" % (nd["m"], line_of(nd).split(":")[-2] if line_of(nd) else "?"))
+            if nd.get("k") == "Path" and nd.get("res") == "Local" and nd["hid"] not in seen:
+                seen.add(nd["hid"])
+                work.extend(lets.get(nd["hid"], ()))
+                for c in mut.get(nd["hid"], ()):
+                    if c["m"] in REORDER_METHODS:
+                        bad.append("`%s.%s()` (line %s)" % (nd.get("name"), c["m"], line_of(c).split(":")[-2] if line_of(c) else "?"))
+                    elif c["m"] in ("push", "extend", "insert", "append", "extend_from_slice"):
+                        work.extend(c["args"])
+    return bad
